@@ -84,6 +84,7 @@ class Inliner:
         self.new = {n for n in self.idx if n not in known_set and "::tests::" not in n and "::test::" not in n}
         self.count = 0
         self.sites = []
+        self.mir_sites = []
 
     def callee_item(self, n):
         d = None
@@ -158,6 +159,98 @@ def new_callee_bodies(facts, body, depth=0, seen=None):
             out.append(cb)
             out += new_callee_bodies(facts, cb, depth + 1, seen)
     return out
+
+
+# ---- MIR ---------------------------------------------------------------------------------------------------------------------------------
+def _ren_mir(n, lo, bo):
+    """deep copy of a MIR fragment with locals shifted by `lo` and block indices by `bo`"""
+    if isinstance(n, list):
+        return [_ren_mir(x, lo, bo) for x in n]
+    if not isinstance(n, dict):
+        return n
+    out = {}
+    for k, v in n.items():
+        if k == "local" and type(v) is int:
+            out[k] = v + lo
+        elif k in ("target", "unwind", "otherwise") and type(v) is int:
+            out[k] = v + bo
+        elif k == "targets" and isinstance(v, list):
+            out[k] = [[x[0], x[1] + bo] for x in v]
+        else:
+            out[k] = _ren_mir(v, lo, bo)
+    return out
+
+
+def splice(caller, bi, callee):
+    """replace the Call terminator of block `bi` by the callee's body: parameters are assigned from the arguments, `return` jumps to a landing
+    block that moves the callee's return slot into the call's destination and continues at the call's target"""
+    t = caller["blocks"][bi]["term"]
+    lo, bo = len(caller["locals"]), len(caller["blocks"])
+    if len(t["args"]) != callee["arg_count"]:
+        return False
+    for l in callee["locals"]:
+        caller["locals"].append(dict(l, inlined=callee["path"]))
+    nb = _ren_mir(callee["blocks"], lo, bo)
+    landing = bo + len(nb)
+    for b in nb:
+        if b["term"]["k"] == "Return":
+            b["term"] = {"k": "Goto", "target": landing, "line": b["term"].get("line"), "exp": b["term"].get("exp", False)}
+        elif b["term"]["k"] == "UnwindResume" and type(t.get("unwind")) is int:
+            b["term"] = {"k": "Goto", "target": t["unwind"], "line": b["term"].get("line"), "exp": True}
+        b["inlined"] = callee["path"]
+    line = t.get("line")
+    for i, a in enumerate(t["args"]):
+        caller["blocks"][bi]["stmts"].append({"k": "Assign", "place": {"local": lo + 1 + i, "proj": [], "ty": callee["locals"][1 + i]["ty"]},
+                                               "rv": {"k": "Use", "op": a}, "line": line, "exp": False})
+    caller["blocks"][bi]["term"] = {"k": "Goto", "target": bo, "line": line, "exp": False}
+    land = {"stmts": [{"k": "Assign", "place": t["dest"], "rv": {"k": "Use", "op": {"k": "Move", "place": {"local": lo, "proj": [], "ty": callee["locals"][0]["ty"]}}},
+                       "line": line, "exp": False}],
+            "term": ({"k": "Goto", "target": t["target"], "line": line, "exp": False} if type(t.get("target")) is int
+                     else {"k": "Unreachable", "line": line, "exp": False}),
+            "cleanup": False, "inlined": callee["path"]}
+    caller["blocks"] += nb + [land]
+    return True
+
+
+def apply_mir(facts, inl):
+    """splice the bodies of NEW non-public functions into their callers; a new function all of whose calls were spliced is moved from
+    facts.mir to facts.mir_inlined (its sites, loops and borders are then examined as part of its callers)"""
+    import mir
+    newp = {p for p in facts.mir if facts.norm(p) in inl.new and facts.mir[p].get("promoted") is None}
+    if not newp:
+        return
+    pristine = {p: copy.deepcopy(facts.mir[p]) for p in newp}
+    remaining = {p: 0 for p in newp}
+    for p, b in facts.mir.items():
+        if p in newp:
+            continue
+        depth_of = {}
+        n = 0
+        changed = True
+        while changed and n < 40:
+            changed = False
+            for bi, bl in enumerate(b["blocks"]):
+                t = bl["term"]
+                if t["k"] != "Call":
+                    continue
+                cp = mir.callee_path(t)
+                if cp not in newp:
+                    continue
+                d = depth_of.get(bl.get("inlined"), 0) if bl.get("inlined") else 0
+                if d >= MAXD or "Public" in str(pristine[cp].get("vis")):
+                    remaining[cp] += 1
+                    continue
+                if splice(b, bi, pristine[cp]):
+                    depth_of[cp] = max(depth_of.get(cp, 0), d + 1)
+                    inl.mir_sites.append("%s -> %s" % (p, cp))
+                    n += 1
+                    changed = True
+                    break
+                remaining[cp] += 1
+    facts.mir_inlined = {}
+    for p in newp:
+        if remaining[p] == 0 and "Public" not in str(pristine[p].get("vis")) and any(x.endswith("-> " + p) for x in inl.mir_sites):
+            facts.mir_inlined[p] = facts.mir.pop(p)
 
 
 def apply(facts):
